@@ -12,6 +12,7 @@ import (
 	"io"
 	"math"
 	"net"
+	"os"
 	"strings"
 	"sync"
 	"sync/atomic"
@@ -1307,10 +1308,20 @@ func (s *SecureChannel) writeMessageChunks(ctx context.Context, instance *channe
 
 		// UASC writes are expected to flush complete chunks. Treat short writes as
 		// a hard error instead of silently truncating the response stream.
+		//
+		// A peer that has stopped reading must not block the sender for ever: the
+		// write gets a deadline, as the request path has. If it expires the chunk
+		// stream is broken, so the connection is closed.
+		s.c.SetWriteDeadline(time.Now().Add(s.responseWriteTimeout()))
 		n, err := s.c.Write(chunk)
 		if err != nil {
+			if errors.Is(err, os.ErrDeadlineExceeded) {
+				debug.Printf("uasc %d/%d: peer does not read, closing the connection", s.c.ID(), reqID)
+				s.c.Close()
+			}
 			return bytesSent, err
 		}
+		s.c.SetWriteDeadline(time.Time{})
 		if len(chunk) != n {
 			return bytesSent, errors.Errorf("uasc: incomplete message %T sent len=%d sent=%d", body, len(chunk), n)
 		}
@@ -1323,6 +1334,19 @@ func (s *SecureChannel) writeMessageChunks(ctx context.Context, instance *channe
 	debug.Printf("uasc %d/%d: send %T with %d bytes in %d chunks", s.c.ID(), reqID, body, bytesSent, len(chunks))
 
 	return bytesSent, nil
+}
+
+// defaultResponseWriteTimeout bounds the write of one chunk of a response
+// if the configuration does not say otherwise.
+const defaultResponseWriteTimeout = 5 * time.Second
+
+// responseWriteTimeout returns how long the write of one chunk of a response
+// may take: Config.ResponseWriteTimeout, or a default of a few seconds.
+func (s *SecureChannel) responseWriteTimeout() time.Duration {
+	if s.cfg.ResponseWriteTimeout > 0 {
+		return s.cfg.ResponseWriteTimeout
+	}
+	return defaultResponseWriteTimeout
 }
 
 func (s *SecureChannel) SendResponseWithContext(ctx context.Context, reqID uint32, resp ua.Response) error {
